@@ -23,6 +23,7 @@ DEFAULT_PROFILE = {
     "max_phase": 8,
     "stop_prob": 0.03,          # LoopSignal::stop() from a callback / between dispatches
     "idle_burst_prob": 0.0,     # several idles queued at once, idles that insert idles
+    "ping_cb_prob": 0.0,        # a callback action is a ping / clone / drop of some Ping handle
 }
 
 
@@ -192,6 +193,9 @@ class Gen:
         n = self.r.randint(*self.p["script_len"])
         acts = []
         for _ in range(n):
+            if self.pings and self.r.random() < self.p["ping_cb_prob"]:
+                acts.append(self.r.choice(["ping %d", "ping %d", "dropp %d", "clonep %d"]) % self.r.choice(self.pings))
+                continue
             k = self.r.random()
             if k < 0.5:
                 a = self.handle_op(self_h=h)
